@@ -48,11 +48,11 @@ func (t *statusTab) names(m uint32) string {
 
 // transition is one call site of changeStatus / tryChangeStatus.
 type transition struct {
-	call ssa.CallInstruction
-	fn   *ssa.Function
-	cas  bool
-	to   int64
-	from []int64 // CAS sources (constants); fromTracked = a CAS whose single source is a loaded status value
+	call       ssa.CallInstruction
+	fn         *ssa.Function
+	cas        bool
+	to         int64
+	from       []int64 // CAS sources (constants); fromTracked = a CAS whose single source is a loaded status value
 	fromLoaded ssa.Value
 }
 
@@ -106,7 +106,7 @@ func init() {
 	register(&Rule{ID: "C07.1", Prop: "C07", Min: 6,
 		Text: "session.status is touched only inside newSession/changeStatus/tryChangeStatus/checkStatus/getStatus and only through sync/atomic (plus the literal initialiser); didCloseNotify only in notifyClosed via CAS",
 		Run:  runC07_1})
-	register(&Rule{ID: "C07.2", Prop: "C07", Min: 12,
+	register(&Rule{ID: "C07.2", Prop: "C07", Min: 9,
 		Text: "status transitions: entering ActiveClosing/PassiveClosing is a compare-and-swap from explicit sources; no CAS leaves ActiveClosed; sources PassiveClosed/RedialFailed only under the redial non-nil test; a blind store is allowed only when the storing path owns the state (ActiveClosed after own CAS to ActiveClosing, PassiveClosed after own entry to PassiveClosing, Preparing/Redialing/Ok inside the redial closure, Ok after hooks per C07.3)",
 		Run:  runC07_2})
 	register(&Rule{ID: "C07.3", Prop: "C07", Min: 4,
@@ -238,6 +238,26 @@ func runC07_2(c *Ctx) {
 					}) {
 						if BlockDominatesInstr(e.NonNil, tr.call) {
 							okGuard = true
+						}
+					}
+					if !okGuard {
+						// the CAS sits in a helper: every call site of the helper must be under the test
+						if cs, noEscape := p.callSitesOf(tr.fn); noEscape && len(cs) > 0 {
+							okGuard = true
+							for _, site := range cs {
+								under := false
+								for _, e := range NilCmpEdges(site.fn, func(v ssa.Value) bool {
+									fr, _, ok := LoadedField(v)
+									return ok && fr.Index == redialIdx && fr.Struct.Obj().Name() == "session"
+								}) {
+									if BlockDominatesInstr(e.NonNil, site.in) {
+										under = true
+									}
+								}
+								if !under {
+									okGuard = false
+								}
+							}
 						}
 					}
 					c.fact("dominance")
@@ -434,20 +454,24 @@ func establishmentSites(c *Ctx) []establishmentSite {
 	dialWithRetry := p.MethodObj(Root, "Dialer", "dialWithRetry")
 	var sites []establishmentSite
 
-	serveConn := p.Fn(Root, "peer", "ServeConn")
-	sites = append(sites, establishmentSite{"ServeConn", serveConn, hookOKBlocks(p, serveConn, postAccept), "OK edge of postAccept"})
-
-	serveListener := p.Fn(Root, "peer", "serveListener")
-	var acceptClosure *ssa.Function
-	for _, a := range serveListener.AnonFuncs {
-		if len(CallsTo(a, postAccept)) > 0 {
-			acceptClosure = a
+	// accept side: every function that runs the accept hook (ServeConn and the per-connection code of serveListener,
+	// whether that is a closure or an extracted method)
+	nAccept := 0
+	for _, fn := range p.ShippedFuncs() {
+		if len(CallsTo(fn, postAccept)) == 0 {
+			continue
 		}
+		nAccept++
+		name := fn.Name()
+		if name != "ServeConn" {
+			name = "serveListener-closure"
+		}
+		sites = append(sites, establishmentSite{name, fn, hookOKBlocks(p, fn, postAccept), "OK edge of postAccept"})
 	}
-	if acceptClosure == nil {
-		anchorFail("serveListener: accept closure calling postAccept not found")
+	if nAccept != 2 {
+		anchorFail("expected 2 functions running the accept hook (ServeConn and serveListener's per-connection code), found %d", nAccept)
 	}
-	sites = append(sites, establishmentSite{"serveListener-closure", acceptClosure, hookOKBlocks(p, acceptClosure, postAccept), "OK edge of postAccept"})
+	sort.Slice(sites, func(i, j int) bool { return sites[i].name < sites[j].name })
 
 	dial := p.Fn(Root, "peer", "Dial")
 	_, redialIdx := p.FieldIndex(Root, "session", "redialForClientLocked")
@@ -523,31 +547,37 @@ func establishmentSites(c *Ctx) []establishmentSite {
 	return sites
 }
 
+func okStoreEffect(p *Prog) effect {
+	st := p.statusTable()
+	change := p.MethodObj(Root, "session", "changeStatus")
+	return effect{"changeStatus(statusOk)", func(i ssa.Instruction) bool {
+		call, ok := i.(*ssa.Call)
+		if !ok || CalleeObj(call) != change {
+			return false
+		}
+		to, _ := ConstIntOf(CallArgs(call)[0])
+		return st.name[to] == "statusOk"
+	}}
+}
+
 func runC07_3(c *Ctx) {
 	p := c.P
 	st := p.statusTable()
-	change := p.MethodObj(Root, "session", "changeStatus")
 	sites := establishmentSites(c)
+	ef := okStoreEffect(p)
 	found := 0
 	for _, s := range sites {
-		for _, call := range CallsTo(s.fn, change) {
-			to, _ := ConstIntOf(CallArgs(call)[0])
-			if st.name[to] != "statusOk" {
-				continue
-			}
+		perf := p.performs(s.fn, ef, 0)
+		if len(perf) > 0 {
 			found++
-			dom := false
-			for _, b := range s.okBlocks {
-				if BlockDominatesInstr(b, call) {
-					dom = true
-				}
-			}
+		}
+		for _, in := range perf {
 			c.fact("dominance")
-			c.Check(dom, s.name+" changeStatus(Ok) after hooks", p.InstrPos(call), "dominated by the "+s.how,
+			c.Check(p.guardedBySites(sites, s.fn, in, 0), s.name+" changeStatus(Ok) after hooks", p.InstrPos(in), "dominated by the "+s.how,
 				"changeStatus(statusOk) in "+s.name+" is not dominated by the "+s.how+": the session is reported healthy before/without its hooks succeeding")
 		}
 	}
-	// no other Ok store anywhere
+	// no other Ok store anywhere: every transition to Ok is in a site, or in a helper all of whose call sites are guarded
 	trs, err := p.statusTransitions()
 	if err != nil {
 		c.Undec("transition-extraction", "", err.Error())
@@ -557,18 +587,20 @@ func runC07_3(c *Ctx) {
 		if st.name[tr.to] != "statusOk" {
 			continue
 		}
-		in := false
-		for _, s := range sites {
-			if s.fn == tr.fn {
-				in = true
+		if !p.guardedBySites(sites, tr.fn, tr.call, 0) {
+			in := false
+			for _, s := range sites {
+				if s.fn == tr.fn {
+					in = true // reported above with the site's name
+				}
 			}
-		}
-		if !in {
-			c.Viol(FnName(tr.fn)+" transition to Ok outside establishment sites", p.InstrPos(tr.call), "status set to Ok outside the four establishment sites")
+			if !in {
+				c.Viol(FnName(tr.fn)+" transition to Ok outside establishment sites", p.InstrPos(tr.call), "status set to Ok outside the four establishment sites (or in a helper that is not called only on their hook-success edges)")
+			}
 		}
 	}
 	if found < 4 {
-		c.Undec("ok-store-count", "", fmt.Sprintf("found %d changeStatus(statusOk) in establishment sites, expected 4", found))
+		c.Undec("ok-store-count", "", fmt.Sprintf("%d of the 4 establishment sites set statusOk (directly or through a helper)", found))
 	}
 }
 
@@ -719,21 +751,16 @@ func runC07_6(c *Ctx) {
 	set := p.MethodObj(Root, "SessionHub", "set")
 	del := p.MethodObj(Root, "SessionHub", "delete")
 	sites := establishmentSites(&Ctx{P: p, rule: c.rule, Facts: c.Facts}) // composition facts are reported by C07.3
+	setEf := effect{"sessHub.set", func(i ssa.Instruction) bool { _, isCall := i.(*ssa.Call); return isCall && IsCallTo(i, set) }}
 	for _, s := range sites {
-		calls := CallsTo(s.fn, set)
-		if len(calls) == 0 {
+		perf := p.performs(s.fn, setEf, 0)
+		if len(perf) == 0 {
 			c.Viol(s.name+" sessHub.set present", p.Pos(s.fn.Pos()), "established session is never inserted into the session index")
 			continue
 		}
-		for _, call := range calls {
-			dom := false
-			for _, b := range s.okBlocks {
-				if BlockDominatesInstr(b, call) {
-					dom = true
-				}
-			}
+		for _, in := range perf {
 			c.fact("dominance")
-			c.Check(dom, s.name+" sessHub.set after hooks", p.InstrPos(call), "dominated by the "+s.how,
+			c.Check(p.guardedBySites(sites, s.fn, in, 0), s.name+" sessHub.set after hooks", p.InstrPos(in), "dominated by the "+s.how,
 				"sessHub.set in "+s.name+" not dominated by the "+s.how+": a rejected/unauthenticated connection is listed as a session")
 		}
 	}
